@@ -450,3 +450,144 @@ func writeCurrent(dir string, w Workload) {
 	out, _ := json.MarshalIndent(rf, "", " ")
 	os.WriteFile(filepath.Join(dir, "current.json"), out, 0o644)
 }
+
+// ---------------------------------------------------------------------------
+// Large caches under concurrency (leg bigclear).  The general workloads above
+// keep the cache at <= 5 entries (known finding F2 needs >= 6 entries and an
+// interior removal).  Put of fresh keys, Has, Len, Size and Clear never remove
+// from the interior of the recency heap, so with only those calls a large
+// cache is safe to check strictly: N entries are stored sequentially, then ONE
+// Clear runs while reader goroutines observe Len / Size / Has.  With a single
+// Clear in flight every observation must be explained by "before the Clear"
+// (Len = Size = N, every key present) or "after it" (0, 0, absent), a reader
+// that has seen "after" must never see "before" again, and the callback must
+// report each of the N entries exactly once.
+
+// BigClearCase is the workload (its executions are schedule dependent).
+type BigClearCase struct {
+	N       int `json:"n"`
+	Readers int `json:"readers"`
+	Procs   int `json:"procs"`
+	Spin    int `json:"spin"`
+}
+
+func runBigClear(c BigClearCase, o *vk.Obs) string {
+	reps := 1
+	if o.NoTriage || os.Getenv("VK_REPLAY") != "" {
+		reps = 50
+	}
+	for r := 0; r < reps; r++ {
+		if msg, _ := executeBigClear(c); msg != "" {
+			return msg
+		}
+	}
+	return ""
+}
+
+func executeBigClear(c BigClearCase) (msg string, overlapped bool) {
+	prev := runtime.GOMAXPROCS(c.Procs)
+	defer runtime.GOMAXPROCS(prev)
+	var mu sync.Mutex
+	reported := map[int]int{}
+	cfg := cache.LRU[int, Val]().
+		WithSize(func(v Val) int64 { spin(c.Spin); return 1 }).
+		OnEvict(func(k int, v Val) {
+			mu.Lock()
+			reported[v.ID]++
+			mu.Unlock()
+			spin(c.Spin)
+			runtime.Gosched()
+		})
+	cc := cache.New(int64(c.N), cfg)
+	for k := 0; k < c.N; k++ {
+		if !cc.Put(k, Val{ID: k + 1, Size: 1}) {
+			return fmt.Sprintf("Put(%d) into a cache of limit %d with %d entries was refused", k, c.N, k), false
+		}
+	}
+	mu.Lock()
+	if len(reported) != 0 {
+		mu.Unlock()
+		return fmt.Sprintf("filling a cache of limit %d with %d unit entries evicted %d of them", c.N, c.N, len(reported)), false
+	}
+	mu.Unlock()
+	var cleared atomic.Bool
+	start := make(chan struct{})
+	errs := make([]string, c.Readers)
+	sawBoth := make([]bool, c.Readers)
+	var wg sync.WaitGroup
+	for g := 0; g < c.Readers; g++ {
+		wg.Add(1)
+		go func(g int) {
+			defer wg.Done()
+			defer func() {
+				if r := recover(); r != nil {
+					errs[g] = fmt.Sprintf("reader %d: a cache call panicked: %v", g, r)
+				}
+			}()
+			<-start
+			after, before := false, false
+			for i := 0; i < 4000 && errs[g] == ""; i++ {
+				wasCleared := cleared.Load() // Clear had returned before this observation started
+				var what string
+				var isBefore, isAfter bool
+				switch (i + g) % 4 {
+				case 0:
+					n := cc.Len()
+					what, isBefore, isAfter = fmt.Sprintf("Len() = %d", n), n == c.N, n == 0
+				case 1:
+					n := cc.Size()
+					what, isBefore, isAfter = fmt.Sprintf("Size() = %d", n), n == int64(c.N), n == 0
+				case 2:
+					k := (i * 7) % c.N
+					ok := cc.Has(k)
+					what, isBefore, isAfter = fmt.Sprintf("Has(%d) = %v", k, ok), ok, !ok
+				default:
+					k := c.N - 1 - (i*3)%c.N
+					ok := cc.Has(k)
+					what, isBefore, isAfter = fmt.Sprintf("Has(%d) = %v", k, ok), ok, !ok
+				}
+				switch {
+				case !isBefore && !isAfter:
+					errs[g] = fmt.Sprintf("reader %d observed %s while a single Clear of a %d-entry cache was the only writer: neither the state before the Clear nor the state after it", g, what, c.N)
+				case isBefore && (after || wasCleared):
+					errs[g] = fmt.Sprintf("reader %d observed %s (the state before the Clear) after it had already observed the cleared cache / after Clear had returned", g, what)
+				}
+				before = before || isBefore
+				if isAfter {
+					after = true
+				}
+				if after && i%64 == 63 {
+					break
+				}
+			}
+			sawBoth[g] = before && after
+		}(g)
+	}
+	close(start)
+	runtime.Gosched()
+	cc.Clear()
+	cleared.Store(true)
+	wg.Wait()
+	for _, e := range errs {
+		if e != "" {
+			return e, true
+		}
+	}
+	for _, b := range sawBoth {
+		overlapped = overlapped || b
+	}
+	if n, s := cc.Len(), cc.Size(); n != 0 || s != 0 {
+		return fmt.Sprintf("after Clear returned: Len = %d, Size = %d", n, s), overlapped
+	}
+	mu.Lock()
+	defer mu.Unlock()
+	for id := 1; id <= c.N; id++ {
+		if reported[id] != 1 {
+			return fmt.Sprintf("Clear of %d entries: value #%d was reported to the eviction callback %d times, want exactly once", c.N, id, reported[id]), overlapped
+		}
+	}
+	if len(reported) != c.N {
+		return fmt.Sprintf("Clear of %d entries reported %d distinct values", c.N, len(reported)), overlapped
+	}
+	return "", overlapped
+}
